@@ -74,6 +74,11 @@ Theorem C05_program_refines_spec : forall cfg ops, run cfg ops = spec_run cfg op
 Proof. exact run_refines_spec. Qed.
 Print Assumptions C05_program_refines_spec.
 
+(* no program dereferences a null buffer (~smart_stream reads s->str() only when it owns a record, and then it owns a buffer) *)
+Theorem C05_no_null_dereference : forall cfg ops, ~ In Fault (run cfg ops).
+Proof. exact run_no_fault. Qed.
+Print Assumptions C05_no_null_dereference.
+
 (* traces compose in program order *)
 Theorem C05_program_order : forall cfg ops1 w ops2,
   exec_prog cfg w (ops1 ++ ops2)
